@@ -32,6 +32,7 @@ def cases(tier):
             yield {"kind": "prog", "variant": variant, "n": n, "tier": tier}
     for shape in GATE_SHAPES:
         yield {"kind": "gate", "shape": shape, "tier": tier}
+    yield {"kind": "fromitp", "tier": tier}
 
 
 def recount(mm, rg_nodes_by_resid):
@@ -164,8 +165,82 @@ def check_gate(shape, case1):
     return viols
 
 
+# ------------------------------------------------------------------ multi-residue (from_itp) fragments
+M_CONTIG = """[ moleculetype ]
+M 1
+[ atoms ]
+1 X1 1 MA x1 1 0.0 10.0
+2 X2 1 MA x2 2 0.0 10.0
+3 Y1 2 MB y1 3 0.0 10.0
+4 Y2 2 MB y2 4 0.0 10.0
+[ bonds ]
+1 2 1 0.2 100
+3 4 1 0.2 100
+2 4 1 0.2 100
+"""
+# the same molecule with its atoms listed backbone first, side atoms after: the atoms of a residue are not contiguous and the
+# only bond between the two residues joins atoms listed after the first run
+M_INTERLEAVED = """[ moleculetype ]
+M 1
+[ atoms ]
+1 X1 1 MA x1 1 0.0 10.0
+2 Y1 2 MB y1 2 0.0 10.0
+3 X2 1 MA x2 3 0.0 10.0
+4 Y2 2 MB y2 4 0.0 10.0
+[ bonds ]
+1 3 1 0.2 100
+2 4 1 0.2 100
+3 4 1 0.2 100
+"""
+
+
+def check_fromitp(case):
+    """residue graphs made of copies of a two-residue from_itp molecule and ordinary residues: junctions between copies have
+    no link (must be reported), edges inside a copy are bonded by the itp (must not be), A -> next is bonded by A's dangling bond"""
+    viols, evals, keys = [], 0, []
+    import itertools
+    for layout, mtxt in (("contiguous", M_CONTIG), ("interleaved", M_INTERLEAVED)):
+        ff_text = mtxt + F.render_block_itp("A", F.BLOCKS["A"], dangling={"bonds": [((1, 3), ("1", "0.40", "500"), {})]}) + F.render_block_itp("B", F.BLOCKS["B"])
+        for k in (1, 2, 3):
+            for seq in itertools.product("AM", repeat=k):
+                if "M" not in seq:
+                    continue
+                residues = []
+                for tok in seq:
+                    residues += [("MA", True), ("MB", True)] if tok == "M" else [(tok, False)]
+                n = len(residues)
+                rg = dict(n=n, edges=[[i, i + 1] for i in range(n - 1)], resids=[1 + i for i in range(n)], resnames=[r[0] for r in residues],
+                          node_attrs={str(i): {"from_itp": "M"} for i, r in enumerate(residues) if r[1]})
+                # expected: edge (i, i+1) is realised iff residue i is MA (inside a copy), or A followed by an ordinary residue
+                # (A's dangling bond names the atom BB of the next residue, which the copies of M do not have)
+                want = sorted((i + 1, i + 2) for i in range(n - 1)
+                              if not (residues[i][0] == "MA" or (residues[i][0] == "A" and not residues[i + 1][1])))
+                evals += 1
+                case1 = dict(kind="fromitp1", layout=layout, seq=list(seq))
+                try:
+                    mm, missing = H.run_processors(H.parse_ff([("itp", ff_text)]), H.build_resgraph(rg))
+                except Exception as exc:  # noqa
+                    viols.append(crash_violation(exc, case1, assertion="pipeline-accepts-valid-input", tags=["from_itp", layout]))
+                    continue
+                got = sorted(tuple(sorted((m["idxA"], m["idxB"]))) for m in missing)
+                bonded = sorted(tuple(sorted(x)) for x in recount(mm, None))
+                realised = sorted(set((i + 1, i + 2) for i in range(n - 1)) - set(want))
+                if got != want and len(viols) < 20:
+                    viols.append(dict(assertion="missing-iff-not-bonded", tags=["from_itp", layout],
+                                      message=f"{layout} itp, sequence {list(seq)}: reported {got}, residue edges without atom-level edge {want} (bonded pairs {bonded})", case=case1, detail={}))
+                if bonded != realised and len(viols) < 20:
+                    viols.append(dict(assertion="harness-fromitp-structure", tags=["harness"], message=f"{layout} {seq}: bonded {bonded} expected {realised}", case=case1, detail={}))
+                keys.append(json.dumps([layout, seq]))
+    return dict(evals=evals, keys=keys, violations=viols, stats={"inputs_fromitp": evals}, sample=dict(kind="fromitp", inputs=evals))
+
+
 def run_case(case):
     stats = {}
+    if case["kind"] in ("fromitp", "fromitp1"):
+        out = check_fromitp(case)
+        if case["kind"] == "fromitp1":
+            out["violations"] = [v for v in out["violations"] if v["case"]["layout"] == case["layout"] and v["case"]["seq"] == case["seq"]]
+        return out
     if case["kind"] == "gate":
         v = check_gate(case["shape"], case)
         return dict(evals=1, keys=["gate:" + case["shape"]], violations=v, stats={"gate_shapes": 1})
